@@ -171,7 +171,22 @@ def check_unsat(assertions, timeout_ms=10000, want_model=True, seed=0, cvc5_ms=N
     if r == z3.sat:
         return 'sat', 'smt-z3', s.model(), dt
     if quantified:
-        return 'unknown', 'none', None, dt  # lambdas/quantified arrays are not portable to the cvc5 text interface
+        # quantifier instantiation is sensitive to the solver's random choices: an `unknown` is retried with other seeds (E-matching only,
+        # then default) before the obligation is given up as undecided; only `unsat` answers are used from the retries
+        for k in (1, 2, 3):
+            for em_only in (True, False):
+                s3 = z3.Solver()
+                if em_only:
+                    s3.set('auto_config', False)
+                    s3.set('mbqi', False)
+                s3.set('timeout', timeout_ms)
+                s3.set('random_seed', seed + 17 * k)
+                s3.set('smt.random_seed', seed + 17 * k) if False else None
+                for a in assertions:
+                    s3.add(a)
+                if s3.check() == z3.unsat:
+                    return 'unsat', 'smt-z3', None, time.time() - t0
+        return 'unknown', 'none', None, time.time() - t0  # lambdas/quantified arrays are not portable to the cvc5 text interface
     # fallback: cvc5 on the same SMT-LIB text
     try:
         txt = s.to_smt2()
